@@ -372,6 +372,30 @@ func genC12(g *Gen, idx int) *Plan {
 	// what the client uses to show it is alive
 	mode := g.Intn(4) // 0 PINGREQ, 1 PUBLISH, 2 REGISTER (not relayed), 3 mix
 	p.Family = fmt.Sprintf("C12-timed-alive%d", mode)
+	// traffic in the other direction: the broker publishes (mostly QoS 0: nothing comes back) shortly
+	// before the client's next sign of life — what the broker sends does not keep the client alive
+	down := g.Bool(0.4)
+	if down {
+		p.Family += "-down"
+		sg.gap(100, 400)
+		sg.add(refsn.Pkt{Type: refsn.SUBSCRIBE, MsgID: sg.nextMid(), TIT: refsn.TITNormal, TopicName: "t/a", QoS: 1})
+	}
+	ninj := 0
+	inject := func(lo int64) {
+		if !down || !g.Bool(0.8) {
+			return
+		}
+		at := sg.t - g.Range(50, ka*1000*4/10)
+		if at <= lo+20 {
+			return
+		}
+		q := uint8(0)
+		if g.Bool(0.1) {
+			q = 1
+		}
+		ninj++
+		p.Broker.Injects = append(p.Broker.Injects, BrokerInject{AtMs: at, Session: "p1", Force: true, Topic: "t/a", Payload: serialPayload("dn", ninj, 1), QoS: q})
+	}
 	steps := int(g.Range(4, 25))
 	if g.Tier == "thorough" && g.Bool(0.2) {
 		steps = int(g.Range(40, 200))
@@ -381,7 +405,9 @@ func genC12(g *Gen, idx int) *Plan {
 			d := g.Range(1, ka*3)
 			sg.add(refsn.Pkt{Type: refsn.DISCONNECT, HasDur: true, Duration: uint16(d)})
 			// wake within the announced duration
+			lo := sg.t
 			sg.gap(d*1000*6/10, d*1000-50)
+			inject(lo)
 			sg.add(refsn.Pkt{Type: refsn.PINGREQ, Data: []byte("c1")})
 			sg.gap(200, 1500)
 			if g.Bool(0.5) {
@@ -390,7 +416,9 @@ func genC12(g *Gen, idx int) *Plan {
 			}
 			continue
 		}
+		lo := sg.t
 		sg.gap(ka*1000*4/10, ka*1000-100)
+		inject(lo)
 		m := mode
 		if m == 3 {
 			m = g.Intn(3)
@@ -414,6 +442,6 @@ func init() {
 		Rule:   "raw peer runs 1-3 sleep/wake cycles (DISCONNECT(d), PINGREQ, optional CONNECT); broker publishes (QoS 0 only in two thirds of the runs, QoS 0-2 otherwise) on topics that need no registration, timed inside the sleep, within +-15 ms of the wake-up and after the wake-up PINGRESP; retry delays from a few ms (a retry timer comes round inside the wake-up procedure) to longer than the sleep; in 30 % of the runs a slow broker with the client's own PINGREQ still in flight when it falls asleep; one copy per flush, nothing after the PINGRESP, never again after the client acknowledged; yield focus on the PINGREQ/DISCONNECT arms and snSend; non-trivial = a broker PUBLISH while the reference state is asleep",
 		Gen:    genC11, Oracle: oracleC11, Quick: 600, Thorough: 40000})
 	Register(&Check{ID: "C12", Level: "exploration",
-		Rule:   "a compliant timed peer (keep-alive 5-40 s): sends PINGREQ / PUBLISH / REGISTER / a mix within every keep-alive while active, announces sleeps of 1..3xKA and wakes within them, 4-25 steps (up to 200 in the thorough tier, i.e. up to ~2 h virtual); gaps between consecutive gateway->broker writes must stay <= 1.5 x KA; non-trivial = session with an MQTT CONNECT",
+		Rule:   "a compliant timed peer (keep-alive 5-40 s): sends PINGREQ / PUBLISH / REGISTER / a mix within every keep-alive while active, announces sleeps of 1 s..3xKA and wakes within them, in 40 % of the runs the broker publishes to it (QoS 0, sometimes 1) less than 0.4 KA before most of its signs of life, 4-25 steps (up to 200 in the thorough tier, i.e. up to ~2 h virtual); gaps between consecutive gateway->broker writes must stay <= 1.5 x KA; non-trivial = session with an MQTT CONNECT",
 		Gen:    genC12, Oracle: oracleC12, Quick: 500, Thorough: 20000})
 }
